@@ -9,7 +9,7 @@
    triangulation the oracle returns.  Results are compared up to equality of
    rational numbers ([oqeq]/[req]); binary64 rounding is not modelled. *)
 From Coq Require Import ZArith NArith QArith List Bool Permutation.
-From Verif Require Import Model.C05 Proofs.C05 Proofs.C05_load.
+From Verif Require Import Model.C05 Proofs.C05 Proofs.C05_load Proofs.C05_mem.
 Import ListNotations.
 Open Scope Q_scope.
 
@@ -433,3 +433,90 @@ Theorem C05_call_sees_rewritten_file :
     loaded (write_file w p f) (DName p) = load_mtext f.
 Proof. exact call_sees_rewritten_file. Qed.
 Print Assumptions C05_call_sees_rewritten_file.
+
+(* ---- audit round --------------------------------------------------------- *)
+(* NaN exactly outside the SUPPORT of the table (the convex hull of its
+   nodes: the union of the closed triangles spanned by three nodes), for any
+   triangulation oracle whose triangles cover the support.  The hypothesis is
+   false for tri = [] (ex_not_covers) and true for a real triangulation
+   (ex_tri_covers); the harness checks per run that qhull's simplices tile
+   the hull. *)
+Theorem C05_nan_iff_outside_support :
+  forall (tri : list pt -> list triangle) (delta : feat -> Q -> Q -> Q)
+         (L : lut) (S : setup) (v : Q) (ev : event),
+    lut_ok L -> setup_ok S ->
+    tri_covers (spec_nn L) (spec_tris tri L) ->
+    (route_scalar tri delta L S v [ev] = [None]) <->
+    ~ in_support (spec_point delta L S ev) (spec_nn L).
+Proof. exact nan_iff_outside_support. Qed.
+Print Assumptions C05_nan_iff_outside_support.
+
+Theorem C05_nan_iff_outside_support_array :
+  forall (tri : list pt -> list triangle) (delta : feat -> Q -> Q -> Q)
+         (L : lut) (S : setup) (v : Q) (ev : event),
+    lut_ok L -> setup_ok S ->
+    tri_covers (spec_nn L) (spec_tris tri L) ->
+    (route_array tri delta L S [v] [ev] = Some [None]) <->
+    ~ in_support (spec_point delta L S ev) (spec_nn L).
+Proof. exact nan_iff_outside_support_array. Qed.
+Print Assumptions C05_nan_iff_outside_support_array.
+
+(* DOCUMENTS A REPAIRED DEFECT (C05-routes-disagree-grid-lut, fix 566665b):
+   the removed route that scaled the LUT instead of the data computes the
+   same numbers; the defect was that qhull saw differently ROUNDED
+   coordinates.  route_scale_lut is tied to nothing. *)
+Theorem C05_removed_scale_lut_route_agrees :
+  forall (tri : list pt -> list triangle) (delta : feat -> Q -> Q -> Q)
+         (L : lut) (S : setup) (v : Q) (evs : list event),
+    lut_ok L -> setup_ok S ->
+    Forall2 oqeq (route_scale_lut tri delta L S v evs)
+            (route_scalar tri delta L S v evs).
+Proof. exact route_scale_lut_agrees. Qed.
+Print Assumptions C05_removed_scale_lut_route_agrees.
+
+(* The caller's event arrays: with copy=True (default) no array that existed
+   before the call is modified; the returned values are the pure get_emodulus
+   of the values the arrays held. *)
+Theorem C05_callers_arrays_not_modified :
+  forall (tri : list pt -> list triangle) (delta : feat -> Q -> Q -> Q)
+         (eta : Q -> Q) (m0 : mem) (L : lut) (S : setup) (md : medium)
+         (ax ad a : N),
+    (a < h_next m0)%N ->
+    mread (fst (get_emodulus_mem tri delta eta true m0 L S md ax ad)) a
+    = mread m0 a.
+Proof. exact mem_copy_preserves. Qed.
+Print Assumptions C05_callers_arrays_not_modified.
+
+Theorem C05_mem_result_is_pure :
+  forall (tri : list pt -> list triangle) (delta : feat -> Q -> Q -> Q)
+         (eta : Q -> Q) (copy : bool) (m0 : mem) (L : lut) (S : setup)
+         (md : medium) (ax ad : N),
+    snd (get_emodulus_mem tri delta eta copy m0 L S md ax ad)
+    = get_emodulus tri delta eta L S md (combine (mread m0 ax) (mread m0 ad)).
+Proof. exact mem_result_is_pure. Qed.
+Print Assumptions C05_mem_result_is_pure.
+
+(* copy=False (documented: inputs are overridden): exactly the deform array
+   is overwritten, with the corrected normalised deformation. *)
+Theorem C05_nocopy_only_deform_overwritten :
+  forall (tri : list pt -> list triangle) (delta : feat -> Q -> Q -> Q)
+         (eta : Q -> Q) (m0 : mem) (L : lut) (S : setup) (md : medium)
+         (ax ad a : N),
+    (a < h_next m0)%N -> a <> ad ->
+    mread (fst (get_emodulus_mem tri delta eta false m0 L S md ax ad)) a
+    = mread m0 a.
+Proof. exact mem_nocopy_others. Qed.
+Print Assumptions C05_nocopy_only_deform_overwritten.
+
+Theorem C05_nocopy_deform_contents :
+  forall (tri : list pt -> list triangle) (delta : feat -> Q -> Q -> Q)
+         (eta : Q -> Q) (m0 : mem) (L : lut) (S : setup) (md : medium)
+         (ax ad : N),
+    (ad < h_next m0)%N -> ax <> ad ->
+    mread (fst (get_emodulus_mem tri delta eta false m0 L S md ax ad)) ad
+    = map (fun d => normq d (lmax (map nd (l_nodes L))))
+          (if Qeq_bool (s_px S) 0 then mread m0 ad
+           else map2 (fun x d => d - delta (l_feat L) (s_px S) x)
+                     (mread m0 ax) (mread m0 ad)).
+Proof. exact mem_nocopy_deform. Qed.
+Print Assumptions C05_nocopy_deform_contents.
